@@ -217,9 +217,38 @@ static void* rw_crowd_body(void* p) {
   fiber_rwlock_rdunlock(&rwl[l]);
   return 0;
 }
+static void* rw_crowd_writer(void* p) {
+  int l = (int)(intptr_t)p;
+  fiber_rwlock_wrlock(&rwl[l]);
+  grw_acq(l, -2, 1, 0);
+  rw_section(0, l, 1, 1, 0);
+  grw_rel(l, -2, 1);
+  fiber_rwlock_wrunlock(&rwl[l]);
+  return 0;
+}
 static int rw_do_op(int idx, op_t* op) {
   int l = op->a % NRW;
   int write = -1, try = 0;
+  if (!strcmp(op->name, "wrcrowd")) {
+    // the caller holds a read lock; one (anonymous) writer queues behind it, then b readers queue behind that writer; the caller's
+    // unlock hands the lock to the writer while all those readers are waiting, the writer's unlock admits them
+    fiber_rwlock_rdlock(&rwl[l]);
+    grw_acq(l, idx, 0, 0);
+    fiber_t* w = fiber_create(8192, &rw_crowd_writer, (void*)(intptr_t)l);
+    if (!w) vs_violation("engine_limit", "fiber_create failed");
+    fiber_detach(w);
+    for (int i = 0; i < 2; i++) fiber_yield();   // the writer runs into the read-held lock
+    for (int i = 0; i < op->b; i++) {
+      fiber_t* f = fiber_create(8192, &rw_crowd_body, (void*)(intptr_t)l);
+      if (!f) vs_violation("engine_limit", "fiber_create failed");
+      fiber_detach(f);
+    }
+    rw_crowd += op->b;
+    for (int i = 0; i < 2; i++) fiber_yield();
+    grw_rel(l, idx, 0);
+    fiber_rwlock_rdunlock(&rwl[l]);
+    return 1;
+  }
   if (!strcmp(op->name, "rdcrowd")) {
     fiber_rwlock_wrlock(&rwl[l]);
     grw_acq(l, idx, 1, 0);
